@@ -6,6 +6,8 @@ mod mats;
 
 mod c01;
 mod c02;
+mod c04;
+mod c05;
 mod c08;
 mod c09;
 mod c10;
@@ -15,6 +17,7 @@ mod c15;
 mod c17;
 mod c18;
 mod dec;
+mod arith;
 
 use common::{Run, Tier};
 use std::path::PathBuf;
@@ -69,6 +72,8 @@ fn main() {
     let code = match id.as_str() {
         "C01" => c01::run(&run),
         "C02" => c02::run(&run),
+        "C04" => c04::run(&run),
+        "C05" => c05::run(&run),
         "C08" => c08::run(&run),
         "C09" => c09::run(&run),
         "C10" => c10::run(&run),
